@@ -29,7 +29,7 @@ def letters_for_cfg(cfg):
         L = [("res", size, addr, ra) for size in (1, 3, (1 << 53) + 1) for addr in P for ra in (None, 1, 54)]
         L += [("win", waw, "same", addr, 0) for waw in (1, 54) for addr in (None, (1 << 54) * 3, (1 << 53) + 2)]
         L += [("align", k) for k in (0, 1, 53, 54)] + [("freeze",), ("use_window",)]
-        L += [("bad", "size_neg"), ("bad", "name_conflict"), ("bad", "big_win")]
+        L += [("bad", "size_neg"), ("bad", "name_conflict"), ("bad", "big_win"), ("bad", "win_name_conflict")]
         return L
     L = []
     sizes = (0, 1, 2, 3, 5) if not thin else (1, 3)
@@ -57,7 +57,8 @@ def letters_for_cfg(cfg):
     L += [("use_window",), ("use_decoder",), ("use_wbbridge",), ("use_bridge",)]
     L += [("bad", what) for what in ("size_neg", "size_str", "addr_neg", "addr_str", "align_neg", "not_component",
                                      "same_res", "name_conflict", "not_map", "same_win", "wide_win", "big_win",
-                                     "dense_inadmissible", "no_mode", "align_bad")]
+                                     "dense_inadmissible", "no_mode", "align_bad", "win_name_conflict", "win_bad_name",
+                                     "anon_inner_conflict")]
     return L
 
 
@@ -109,9 +110,16 @@ class RefAlloc:
 def execute_factory(cfg):
     AW, AL = cfg["aw"], cfg["al"]
 
-    def observe(mm):
-        rs = [(s, e, 1, "r") for _, _, (s, e) in mm.resources()]
-        ws = [(s, e, st, "w") for _, _, (s, e, st) in mm.windows()]
+    def observe(mm, objs=None):
+        rs, ws = [], []
+        for o, name, (s, e) in mm.resources():
+            rs.append((s, e, 1, "r"))
+            if objs is not None:
+                objs.append((s, id(o), tuple(name)))
+        for o, name, (s, e, st) in mm.windows():
+            ws.append((s, e, st, "w"))
+            if objs is not None:
+                objs.append((s, id(o), None if name is None else tuple(name)))
         return rs, ws
 
     def execute(history, parent_key):
@@ -123,6 +131,7 @@ def execute_factory(cfg):
         ref = RefAlloc(AW, AL)
         first_res = first_win = first_name = None
         failed_name = failed_obj = None
+        handed = {}              # start address -> (object identity, name) as handed to the add_* calls
         children = []
         err = None
         last_raised = False
@@ -143,6 +152,7 @@ def execute_factory(cfg):
                         eff = max(ra if ra is not None else 0, AL)
                         exp = ref.place(addr, au(max(size, 1), eff), eff)
                     ret = mm.add_resource(res, name=(f"p{pos}",), size=size, addr=addr, alignment=ra)
+                    handed[ret[0]] = (id(res), (f"p{pos}",))
                     if first_res is None:
                         first_res, first_name = res, (f"p{pos}",)
                 elif kind == "win":
@@ -159,12 +169,13 @@ def execute_factory(cfg):
                     else:
                         exp = ("dense", (1 << waw) // ratio, addr, ratio)
                     ret = mm.add_window(w, name=(f"p{pos}",), addr=addr, sparse=sp)
+                    handed[ret[0]] = (id(w), (f"p{pos}",))
                     children.append(w)
                     if first_win is None:
                         first_win = w
                         first_name = first_name or (f"p{pos}",)
                 elif kind == "align":
-                    exp = ("ret", au(ref.cur, max(op[1], AL)))
+                    exp = ("ret", au(ref.cur, max(op[1], AL)), ref.frozen)
                     ret = mm.align_to(op[1])
                 elif kind == "freeze":
                     exp = ("none",)
@@ -220,6 +231,16 @@ def execute_factory(cfg):
                         ret = mm.add_window(MemoryMap(addr_width=1, data_width=8), name=nm)
                     elif what == "align_bad":
                         ret = mm.align_to(-1)
+                    elif what == "win_name_conflict":      # placement is fine, the NAME is taken
+                        ret = mm.add_window(MemoryMap(addr_width=1, data_width=DW), name=first_name if first_name is not None else ())
+                    elif what == "win_bad_name":
+                        ret = mm.add_window(MemoryMap(addr_width=1, data_width=DW), name=("",))
+                    elif what == "anon_inner_conflict":    # anonymous window whose inner name is taken
+                        w_ = MemoryMap(addr_width=1, data_width=DW)
+                        w_.add_resource(make_res(), name=first_name if first_name is not None else ("q",), size=1)
+                        ret = mm.add_window(w_)
+                        if first_name is None:
+                            first_name = ("q",)
             except (ValueError, TypeError) as e:
                 raised = e
             except Exception as e:           # anything else escaping the API is an error of its own
@@ -237,18 +258,18 @@ def execute_factory(cfg):
                     err = err or fail(f"accepted (returned {ret}) but must be refused", "accepted")
                 if raised is None:
                     applied = ret
-            elif tag == "ok":
+            elif tag in ("ok", "either"):
                 if raised is not None:
-                    if last:
+                    if last and tag == "ok":
                         err = err or fail(f"refused ({type(raised).__name__}) but must be placed at {exp[1]}..{exp[2]}", "refused")
                 else:
-                    if (ret[0], ret[1]) != (exp[1], exp[2]) and last:
-                        err = err or fail(f"placed at {ret}, expected {exp[1]}..{exp[2]}", "placement")
-                    applied = ret
-            elif tag == "either":
-                if raised is None:
-                    if (ret[0], ret[1]) != (exp[1], exp[2]) and last:
-                        err = err or fail(f"placed at {ret}, expected {exp[1]}..{exp[2]} or a refusal", "placement")
+                    # the start is fixed (first suitably aligned address / the explicit address); the range must
+                    # cover AT LEAST the requested size rounded to the effective alignment, stay in bounds and free
+                    good = (ret[0] == exp[1] and ret[1] >= exp[2] and ret[1] <= (1 << AW) and ref.free(ret[0], ret[1])
+                            and (len(ret) == 2 or ret[2] == 1))
+                    if not good and last:
+                        err = err or fail(f"placed at {ret}, expected start {exp[1]} and at least {exp[1]}..{exp[2]} (free, in bounds"
+                                          f"{', ratio 1' if len(ret) == 3 else ''}){' or a refusal' if tag == 'either' else ''}", "placement")
                     applied = ret
             elif tag == "dense":
                 if raised is None:
@@ -259,7 +280,9 @@ def execute_factory(cfg):
                         err = err or fail(f"dense window placed at {ret}: overlaps / out of bounds / too small / frozen", "dense")
                     applied = ret
             elif tag == "ret":
-                if raised is not None or ret != exp[1]:
+                if raised is not None and exp[2]:
+                    pass        # moving the cursor of a FROZEN map: the property does not say it must work
+                elif raised is not None or ret != exp[1]:
                     if last:
                         err = err or fail(f"returned {ret!r} / raised {raised!r}, expected {exp[1]}", "align_to")
                 else:
@@ -293,8 +316,12 @@ def execute_factory(cfg):
                 failed_name = (f"p{pos}",)
                 failed_obj = res if kind == "res" else None
         # ---- canonical observation (public queries only; destructive probes are fine here) ----------
-        rs, ws = observe(mm)
-        cursor = mm.align_to(0)
+        reported = []
+        rs, ws = observe(mm, reported)
+        try:
+            cursor = mm.align_to(0)
+        except (ValueError, TypeError):
+            cursor = None if ref.frozen else -1
         # States are merged on the observation, so a refused call that leaves HIDDEN traces (a reserved
         # name, a registered object) would go unnoticed by the search itself: look one step ahead.
         retried = False
@@ -339,6 +366,9 @@ def execute_factory(cfg):
             rep = sorted(rs + ws)
             if [(a, b, c) for a, b, c, _ in rep] != [(a, b, c) for a, b, c, _ in items]:
                 err = dict(msg=f"resources()/windows() report {rep}, handed out {items}", signature=dict(kind="oracle", what="report"))
+            elif any(handed.get(s) not in (None, (oid, nm)) for s, oid, nm in reported):
+                err = dict(msg="resources()/windows() pair a range with another object or name than the one it was handed out for",
+                           signature=dict(kind="oracle", what="report_identity"))
             elif rs != sorted(rs) or ws != sorted(ws):
                 err = dict(msg="resources()/windows() not in ascending address order", signature=dict(kind="oracle", what="order"))
             elif any(b > (1 << AW) or a < 0 or a >= b for a, b, _, _ in rep):
@@ -347,7 +377,7 @@ def execute_factory(cfg):
                 err = dict(msg=f"overlapping ranges: {rep}", signature=dict(kind="oracle", what="overlap"))
             elif any(a % (1 << AL) or b % (1 << AL) for a, b, c, k in rep if k == "r" or c == 1):
                 err = dict(msg=f"range not aligned to the map alignment {AL}: {rep}", signature=dict(kind="oracle", what="misaligned"))
-            elif cursor != au(ref.cur, AL):
+            elif cursor is not None and cursor != au(ref.cur, AL):
                 err = dict(msg=f"placement cursor is {cursor}, expected {au(ref.cur, AL)}", signature=dict(kind="oracle", what="cursor"))
             elif ref.frozen and open_:
                 err = dict(msg="map was frozen (explicitly or by use) but still accepts a resource", signature=dict(kind="oracle", what="not_frozen"))
